@@ -146,6 +146,8 @@ class EngineC18:
         if np.count_nonzero(x) < 2:
             x[tuple(0 for _ in shape)] = 1.25
             x[tuple(s - 1 for s in shape)] = 0.75
+            if init_int:
+                x = np.ceil(x)  # (data held in integer storage must be whole numbers, or the storage truncates them)
         # admissible ranks are counted on the slices that actually carry data: an all-zero slice adds nothing to the
         # rank of the data, and a model with more components than the data can have is not identifiable (thorough
         # tier, seed 702 run 11378: rank-3 CP-ALS on a 3x3 matrix with a zero column; one component collapses to
@@ -745,6 +747,22 @@ class EngineC18:
                 res.bump("probe:variant_printed")
         if op in ("R1", "R1p") and base["rng_after"] != other["rng_after"]:
             return V("same_seed_same_stream_use", "global random state after the run differs between two runs with the same seed")
+        if op == "R6" and alg in ("cp_als", "tucker_als") and not init.get("big"):
+            # The stopping rule under scaling: with a convergence tolerance in force (and room to converge) the scaled
+            # problem must stop after the same number of sweeps. Rounding can move a borderline stop by one sweep,
+            # never by two (the fit change would have to sit within 1e-14 of the tolerance twice in a row).
+            init_s = dict(init, stoptol=float(init.get("stoptol") or 0.0) or 1e-4, maxiters=30)
+            try:
+                b2 = self._call(init_s, dict(base_v, use_stoptol=True))
+                o2 = self._call(init_s, dict(var, use_stoptol=True))
+            except Exception:  # noqa: BLE001 -- singular systems etc. are judged by the main comparison above
+                b2 = o2 = None
+            if b2 is not None:
+                res.bump("pairs_compared")
+                if abs(b2["iters"] - o2["iters"]) > 1:
+                    return V("same_iteration_count", f"with stoptol={init_s['stoptol']:g} the run stops after {b2['iters']} sweeps, on the data scaled by {step['scale']:g} after {o2['iters']}")
+                if b2["iters"] < 34:
+                    res.bump("probe:scaled_run_stopped_by_its_convergence_test")
         if check_fit and alg in ("cp_als", "tucker_als", "hosvd"):
             fa, fb = base["fit"], other["fit"]
             # the reported fit is 1 - sqrt(|cancelled quantity|)/||X||: for near-exact fits compare the
